@@ -860,7 +860,12 @@ def _run_accum_sub(rec, sub, rng):
 def _x1_for(kind, n1, n, rng):
     if kind.startswith("spinrbf"):
         return rng.uniform(-0.6, 0.9, size=(2, n, n1))
-    return rng.uniform(-0.6, 0.9, size=(n, n1))
+    X = rng.uniform(-0.6, 0.9, size=(n, n1))
+    if "antisym" in kind and n1 >= 2:
+        # some samples with the first two features exactly equal (spin-unpolarised points): the antisymmetric kernel
+        # vanishes there but its derivative does not
+        X[: max(1, n // 4), 1] = X[: max(1, n // 4), 0]
+    return X
 
 
 def _fresh(ev, X1):
